@@ -53,6 +53,25 @@ theorem dsum_residual (a b a' : R) (m : ℕ) :
     rw [this, ih]
     noncomm_ring
 
+/-- any solution of `a y a' − y + b = 0` is the partial sum plus the transported tail -/
+theorem solution_eq_dsum_add_tail (a b a' y : R) (h : a * y * a' - y + b = 0) (m : ℕ) :
+    y = dsum a b a' m + a ^ m * y * a' ^ m := by
+  have hy : a * y * a' = y - b := by
+    have : a * y * a' = (a * y * a' - y + b) + (y - b) := by noncomm_ring
+    rw [this, h, zero_add]
+  induction m with
+  | zero => simp [dsum]
+  | succ m ih =>
+    have h1 : dsum a b a' (m + 1) = dsum a b a' m + a ^ m * b * a' ^ m := by
+      unfold dsum; rw [sum_range_succ]
+    have h2 : a ^ (m + 1) * y * a' ^ (m + 1) = a ^ m * (a * y * a') * a' ^ m := by
+      rw [pow_succ a m, pow_succ' a' m]; noncomm_ring
+    rw [h1, h2, hy]
+    have : dsum a b a' m + a ^ m * b * a' ^ m + a ^ m * (y - b) * a' ^ m
+        = dsum a b a' m + a ^ m * y * a' ^ m := by noncomm_ring
+    rw [this]
+    exact ih
+
 end alg
 
 /-! ### executable matrices as Mathlib matrices -/
